@@ -7,23 +7,44 @@
 (*   to mqtttopic prefix", mqttretain "retain all topics instead of only selected global ones", mqttqos "for all topics",   *)
 (*   mqttjson[=short] "value directly below field key", mqttverbose, mqttchanges "only publish changed messages instead of  *)
 (*   all received"), ChangeLog.md (/get, /set, /list topics, "*" as trailing wildcard of /list, poll priority with the get  *)
-(*   topic, get on field level, subscription after reconnect, one payload per message, empty payload for messages without  *)
-(*   data, circuit and name moved into the payload when the topic has no %name), contrib/etc/ebusd/mqtt-integration.cfg     *)
-(*   (definition topics, variables, filters, `%field the field name and key for JSON objects`), mqtt-hassio.cfg             *)
-(*   (`value_json["%field"].value`), the interface comments of datahandler.h / mqttclient.h.                                *)
+(*   topic, get on field level, subscription after reconnect, automatic reconnect, empty payload for messages without      *)
+(*   data, circuit and name moved into the payload when the topic has no %name, write messages announced read-only when     *)
+(*   writes are excluded), contrib/etc/ebusd/mqtt-integration.cfg (definition topics, variables, filters, `%field the field *)
+(*   name and key for JSON objects`), mqtt-hassio.cfg (`value_json["%field"].value`), the interface comments of             *)
+(*   datahandler.h / mqttclient.h.                                                                                          *)
 (*   Observables: the events of a session (clock ticks, passive telegrams on the bus, client reads, incoming MQTT topics,   *)
 (*   broker down/up, one iteration of the handler loop), and per event what the handler asked its MQTT client to publish     *)
-(*   or subscribe, every telegram ebusd wrote (with the slave's answer) and the poll priorities.  The monitor's state is    *)
-(*   what a subscriber could know: the last value of each message seen on the bus, how many updates are not yet published,   *)
-(*   the connection state the client reported.  Open (never judged): the version text, when uptime/signal/scan are          *)
-(*   published, which global topics are retained without --mqttretain except `running` (it is the last will), whether       *)
-(*   updates received while the broker is away are published later, the payload layout of --mqttverbose and of              *)
-(*   field-level JSON beyond "contains the value", whether a /set answer is published.                                       *)
+(*   or subscribe, every telegram ebusd wrote (with the slave's answer), the poll priorities and the bus signal.  The       *)
+(*   monitor's state is what a subscriber could know: the last value of each message seen on the bus, how many updates are  *)
+(*   not yet published, the connection state the client reported, which definitions were announced.                         *)
+(*   Clauses: P.1 topics (message, field, global, subscription filter), P.2 payloads (plain, JSON, short JSON; verbose,      *)
+(*   field-level JSON and topic-less payloads only "contain" the values), P.2b definitions of the integration file, P.3     *)
+(*   telegrams of /get and /set, P.4 the monitor: every publish goes to a documented topic with the payload of the last     *)
+(*   value seen, qos = --mqttqos, retain as documented; nothing is published while the client reported "disconnected"; a     *)
+(*   CONNACK is followed by running=true and a subscription covering every message's /get topic; each update (change with   *)
+(*   --mqttchanges) is published exactly once (coalescing allowed) and none is pending after the session's drain unless the  *)
+(*   connection was lost; /get on an active message = exactly its read telegram, then its publish; /get on a passive one =   *)
+(*   its publish without telegram; /set on a write message with a valid value = exactly the write telegram that encodes it;  *)
+(*   unknown names / invalid values / unknown directions = nothing; /list = every message in scope exactly once (empty       *)
+(*   payload without data; only those with data when a payload is given); get?N sets poll priority N; the broker coming     *)
+(*   back is followed by a reconnect within 16 s + 3 iterations; every message/field the filters admit is announced on its   *)
+(*   definition topic once per restart with the documented payload and retain flag, every global item as well.              *)
+(*   Open (never judged): the version text, when uptime/signal/scan are published, which global topics are retained          *)
+(*   without --mqttretain except `running` (it is the last will), whether updates received while the broker is away are     *)
+(*   published later, the payload layout of --mqttverbose and of field-level JSON beyond "contains the value", whether a     *)
+(*   /set answer is published, list scopes and arguments for irregular topic templates, definitions of write messages        *)
+(*   when writes are excluded or no data was seen.                                                                          *)
 (* Part S - the handler as coded (one operator per event; state = m_connected, m_updatedMessages, m_definitionsSince,       *)
-(*   lastTaskRun, signal, the message store's update/change times, MainLoop's sinkSince, the fake client's state):          *)
-(*   predicts the exact outputs of every event; a difference from the real code is DRIFT.                                   *)
-(* Part D - domain: worlds (message family x option set) and sessions.  Texts are sequences of character codes.            *)
+(*   lastTaskRun, allowReconnect, signal, the message store's update/change/create times and data-handler state, MainLoop's  *)
+(*   sinkSince / lastTaskRun / reload, the fake client's state): predicts the exact outputs of every event (as a bag,       *)
+(*   payloads modulo white space); a difference from the real code is DRIFT.  The constant FIX switches on corrections      *)
+(*   (AllFixes) with which S satisfies P; spec/MC_MqttHandler.tla checks S(AllFixes) => P and that S({}) and S(AllFixes      *)
+(*   minus any one) are rejected.                                                                                            *)
+(* Part D - domain: spec/MqttDomain.tla (worlds = message family x option set, sessions).  Texts are sequences of character *)
+(*   codes.  (TLC note: state variables of modules that EXTEND this one must not be named like a bound variable here.)      *)
 EXTENDS Naturals, Integers, Sequences, FiniteSets, TLC
+(* FIX: the set of corrections applied to part S ({} = the handler as coded; AllFixes = a handler that agrees with part P) *)
+CONSTANT FIX
 
 T_ca == <<99, 97>>
 T_cb == <<99, 98>>
@@ -91,6 +112,19 @@ T_gl2 == <<103, 108, 47, 37, 110, 97, 109, 101>>    \* gl/%name
 T_jvalue == <<123, 34, 118, 97, 108, 117, 101, 34, 58>>    \* {"value":
 T_jcircuit == <<34, 99, 105, 114, 99, 117, 105, 116, 34, 58>>    \* "circuit":
 T_jname == <<34, 110, 97, 109, 101, 34, 58>>    \* "name":
+T_config == <<99, 111, 110, 102, 105, 103>>
+T_list5 == <<108, 105, 115, 116>>
+
+(* the integration files of the worlds with --mqttint (variables as documented in contrib/etc/ebusd/mqtt-integration.cfg):            *)
+(*  filter-seen = 0|1, filter-direction = r|u|w / r|u, type_map-number = number, type_map-list = string,                              *)
+(*  definition-topic = %prefixn/config/%CIRCUIT/%NAME/%FIELD, definition-payload = %topic|%circuit|%name|%field|%type|%direction,     *)
+(*  definition-retain = 1, def_global-topic = %prefixn/config/global/%FIELD, def_global-payload = %topic|%field,                      *)
+(*  def_global-retain = 0, config_restart-topic = %prefixn/config/restart                                                             *)
+T_int1 == <<102, 105, 108, 116, 101, 114, 45, 115, 101, 101, 110, 32, 61, 32, 48, 10, 102, 105, 108, 116, 101, 114, 45, 100, 105, 114, 101, 99, 116, 105, 111, 110, 32, 61, 32, 114, 124, 117, 124, 119, 10, 116, 121, 112, 101, 95, 109, 97, 112, 45, 110, 117, 109, 98, 101, 114, 32, 61, 32, 110, 117, 109, 98, 101, 114, 10, 116, 121, 112, 101, 95, 109, 97, 112, 45, 108, 105, 115, 116, 32, 61, 32, 115, 116, 114, 105, 110, 103, 10, 100, 101, 102, 105, 110, 105, 116, 105, 111, 110, 45, 116, 111, 112, 105, 99, 32, 61, 32, 37, 112, 114, 101, 102, 105, 120, 110, 47, 99, 111, 110, 102, 105, 103, 47, 37, 67, 73, 82, 67, 85, 73, 84, 47, 37, 78, 65, 77, 69, 47, 37, 70, 73, 69, 76, 68, 10, 100, 101, 102, 105, 110, 105, 116, 105, 111, 110, 45, 112, 97, 121, 108, 111, 97, 100, 32, 61, 32, 37, 116, 111, 112, 105, 99, 124, 37, 99, 105, 114, 99, 117, 105, 116, 124, 37, 110, 97, 109, 101, 124, 37, 102, 105, 101, 108, 100, 124, 37, 116, 121, 112, 101, 124, 37, 100, 105, 114, 101, 99, 116, 105, 111, 110, 10, 100, 101, 102, 105, 110, 105, 116, 105, 111, 110, 45, 114, 101, 116, 97, 105, 110, 32, 61, 32, 49, 10, 100, 101, 102, 95, 103, 108, 111, 98, 97, 108, 45, 116, 111, 112, 105, 99, 32, 61, 32, 37, 112, 114, 101, 102, 105, 120, 110, 47, 99, 111, 110, 102, 105, 103, 47, 103, 108, 111, 98, 97, 108, 47, 37, 70, 73, 69, 76, 68, 10, 100, 101, 102, 95, 103, 108, 111, 98, 97, 108, 45, 112, 97, 121, 108, 111, 97, 100, 32, 61, 32, 37, 116, 111, 112, 105, 99, 124, 37, 102, 105, 101, 108, 100, 10, 100, 101, 102, 95, 103, 108, 111, 98, 97, 108, 45, 114, 101, 116, 97, 105, 110, 32, 61, 32, 48, 10, 99, 111, 110, 102, 105, 103, 95, 114, 101, 115, 116, 97, 114, 116, 45, 116, 111, 112, 105, 99, 32, 61, 32, 37, 112, 114, 101, 102, 105, 120, 110, 47, 99, 111, 110, 102, 105, 103, 47, 114, 101, 115, 116, 97, 114, 116, 10>>
+T_int2 == <<102, 105, 108, 116, 101, 114, 45, 115, 101, 101, 110, 32, 61, 32, 49, 10, 102, 105, 108, 116, 101, 114, 45, 100, 105, 114, 101, 99, 116, 105, 111, 110, 32, 61, 32, 114, 124, 117, 10, 116, 121, 112, 101, 95, 109, 97, 112, 45, 110, 117, 109, 98, 101, 114, 32, 61, 32, 110, 117, 109, 98, 101, 114, 10, 116, 121, 112, 101, 95, 109, 97, 112, 45, 108, 105, 115, 116, 32, 61, 32, 115, 116, 114, 105, 110, 103, 10, 100, 101, 102, 105, 110, 105, 116, 105, 111, 110, 45, 116, 111, 112, 105, 99, 32, 61, 32, 37, 112, 114, 101, 102, 105, 120, 110, 47, 99, 111, 110, 102, 105, 103, 47, 37, 67, 73, 82, 67, 85, 73, 84, 47, 37, 78, 65, 77, 69, 47, 37, 70, 73, 69, 76, 68, 10, 100, 101, 102, 105, 110, 105, 116, 105, 111, 110, 45, 112, 97, 121, 108, 111, 97, 100, 32, 61, 32, 37, 116, 111, 112, 105, 99, 124, 37, 99, 105, 114, 99, 117, 105, 116, 124, 37, 110, 97, 109, 101, 124, 37, 102, 105, 101, 108, 100, 124, 37, 116, 121, 112, 101, 124, 37, 100, 105, 114, 101, 99, 116, 105, 111, 110, 10, 100, 101, 102, 105, 110, 105, 116, 105, 111, 110, 45, 114, 101, 116, 97, 105, 110, 32, 61, 32, 49, 10, 100, 101, 102, 95, 103, 108, 111, 98, 97, 108, 45, 116, 111, 112, 105, 99, 32, 61, 32, 37, 112, 114, 101, 102, 105, 120, 110, 47, 99, 111, 110, 102, 105, 103, 47, 103, 108, 111, 98, 97, 108, 47, 37, 70, 73, 69, 76, 68, 10, 100, 101, 102, 95, 103, 108, 111, 98, 97, 108, 45, 112, 97, 121, 108, 111, 97, 100, 32, 61, 32, 37, 116, 111, 112, 105, 99, 124, 37, 102, 105, 101, 108, 100, 10, 100, 101, 102, 95, 103, 108, 111, 98, 97, 108, 45, 114, 101, 116, 97, 105, 110, 32, 61, 32, 48, 10, 99, 111, 110, 102, 105, 103, 95, 114, 101, 115, 116, 97, 114, 116, 45, 116, 111, 112, 105, 99, 32, 61, 32, 37, 112, 114, 101, 102, 105, 120, 110, 47, 99, 111, 110, 102, 105, 103, 47, 114, 101, 115, 116, 97, 114, 116, 10>>
+T_cfgS == <<47, 99, 111, 110, 102, 105, 103, 47>>    \* /config/
+T_number == <<110, 117, 109, 98, 101, 114>>    \* number
+T_restart == <<114, 101, 115, 116, 97, 114, 116>>    \* restart
 
 (***************************************************************************)
 (* text helpers                                                             *)
@@ -157,7 +191,6 @@ DefCsv(m) ==
 RECURSIVE CsvOf(_)
 CsvOf(ms) == IF ms = <<>> THEN <<>> ELSE DefCsv(Head(ms)) \o CsvOf(Tail(ms))
 
-Opt(tp, js, chg, ret, verb, qos, gl) == [tp |-> tp, js |-> js, chg |-> chg, ret |-> ret, verb |-> verb, qos |-> qos, gl |-> gl, int |-> 0]
 OptArgs(o) == <<T_oScan, T_oPort>>
               \o (IF o.tp = <<>> THEN <<>> ELSE <<T_oTopic \o o.tp>>)
               \o (IF o.js = "j" THEN <<T_oJson>> ELSE IF o.js = "s" THEN <<T_oShort>> ELSE <<>>)
@@ -186,22 +219,31 @@ ParseTpl(tx, k, acc) ==
     IN ConstPart(acc) \o <<[v |-> VarIdx(nm), s |-> nm]>> \o ParseTpl(tx, IF brace THEN to + 1 ELSE to, <<>>)
   ELSE ParseTpl(tx, k + 1, Append(acc, tx[k]))
 (* "Use MQTT TOPIC (prefix before /%circuit/%name or complete format) [ebusd]"; a trailing "#" = nothing is added *)
-TplText(o) == IF o.tp = <<>> THEN T_ebusd \o T_defTail
-              ELSE IF Last(o.tp) = 35 THEN Front(o.tp)
-              ELSE IF 37 \notin Rng(o.tp) THEN o.tp \o T_defTail
-              ELSE o.tp
-Tpl(o) == ParseTpl(TplText(o), 1, <<>>)
+TplText(tp) == IF tp = <<>> THEN T_ebusd \o T_defTail
+               ELSE IF Last(tp) = 35 THEN Front(tp)
+               ELSE IF 37 \notin Rng(tp) THEN tp \o T_defTail
+               ELSE tp
 HasVar(parts, v) == \E k \in DOMAIN parts : parts[k].v = v
-Static(o) == ~HasVar(Tpl(o), 2)
-ByField(o) == HasVar(Tpl(o), 3)
-Regular(o) == TplText(o) \in {x \o T_defTail : x \in {T_ebusd, T_tpHp}} \cup {T_tpField}    \* PREFIX/%circuit/%name[/%field]
+(* an option set carries what is derived from its texts once (x): the template parts, whether the topic has no %name (static), *)
+(* whether it has %field, the constant prefix, the parts of --mqttglobal, whether the template is PREFIX/%circuit/%name[/%field] *)
+Opt(tp, js, chg, ret, verb, qos, gl) ==
+  LET parts == ParseTpl(TplText(tp), 1, <<>>)
+  IN [tp |-> tp, js |-> js, chg |-> chg, ret |-> ret, verb |-> verb, qos |-> qos, gl |-> gl, int |-> 0,   \* int: see OptInt
+      x |-> [tpl |-> parts, st |-> ~HasVar(parts, 2), bf |-> HasVar(parts, 3), prefix |-> IF parts # <<>> /\ parts[1].v = 0 THEN parts[1].s ELSE <<>>,
+             gp |-> ParseTpl(gl, 1, <<>>), reg |-> TplText(tp) \in {y \o T_defTail : y \in {T_ebusd, T_tpHp}} \cup {T_tpField}]]
+OptInt(o, v) == [o EXCEPT !.int = v]      \* the option set with --mqttint=mqttint.cfg, integration file variant v (1 | 2)
+IntFile(v) == IF v = 1 THEN T_int1 ELSE IF v = 2 THEN T_int2 ELSE <<>>
+Tpl(o) == o.x.tpl
+Static(o) == o.x.st
+ByField(o) == o.x.bf
+Regular(o) == o.x.reg
 Subst(parts, c, n, f) == Flat([k \in DOMAIN parts |-> IF parts[k].v = 0 THEN parts[k].s ELSE IF parts[k].v = 1 THEN c
                                                        ELSE IF parts[k].v = 2 THEN n ELSE IF parts[k].v = 3 THEN f ELSE <<>>])
 (* the parts up to and including the first variable v *)
 UpTo(parts, v) == LET ks == {k \in DOMAIN parts : parts[k].v = v} IN IF ks = {} THEN parts ELSE SubSeq(parts, 1, CHOOSE k \in ks : \A j \in ks : k <= j)
 Before(parts, v) == LET ks == {k \in DOMAIN parts : parts[k].v = v} IN IF ks = {} THEN parts ELSE SubSeq(parts, 1, (CHOOSE k \in ks : \A j \in ks : k <= j) - 1)
 DropSlash(tx) == IF tx # <<>> /\ Last(tx) = 47 THEN Front(tx) ELSE tx
-Prefix(o) == LET p == Tpl(o) IN IF p # <<>> /\ p[1].v = 0 THEN p[1].s ELSE <<>>
+Prefix(o) == o.x.prefix
 FieldName(w, m, f) == w.msgs[m].fl[f].n
 (* the topic a message (one field of it, when the template has %field) is published on *)
 MsgTopic(w, m) == Subst(Before(Tpl(w.o), 3), w.msgs[m].c, w.msgs[m].n, <<>>)      \* by-field templates: the message level
@@ -210,7 +252,7 @@ PubTopic(w, m, f) == IF ByField(w.o) THEN FieldTopic(w, m, f) ELSE Subst(Tpl(w.o
 (* global data: "default is "global/" suffix to mqtttopic prefix"; --mqttglobal=TOPIC "use TOPIC for global data" *)
 GlobalNames == {T_version, T_running, T_signal, T_uptime, T_updatecheck, T_scan}
 GlobalTopic(o, x) == IF o.gl = <<>> THEN Prefix(o) \o T_globalS \o x
-                     ELSE LET gp == ParseTpl(o.gl, 1, <<>>) IN IF HasVar(gp, 2) THEN Subst(gp, T_global, x, <<>>) ELSE o.gl \o x
+                     ELSE IF HasVar(o.x.gp, 2) THEN Subst(o.x.gp, T_global, x, <<>>) ELSE o.gl \o x
 (* MQTT topic filter with an optional trailing "#" *)
 FilterCovers(flt, tx) == IF flt # <<>> /\ Last(flt) = 35 THEN StartsWith(tx, Front(flt)) \/ tx = DropSlash(Front(flt)) ELSE flt = tx
 
@@ -235,6 +277,27 @@ PayloadOk(w, m, f, val, p) ==
      ELSE IF Static(o) THEN OrderedSub(sp, (IF o.js = "n" THEN <<w.msgs[m].c, w.msgs[m].n>> ELSE <<T_jcircuit \o Quote(w.msgs[m].c), T_jname \o Quote(w.msgs[m].n)>>) \o toks)
      ELSE IF o.verb = 1 THEN OrderedSub(sp, toks)
      ELSE sp = exact
+
+(***************************************************************************)
+(* P.2b documented definitions (mqtt-integration.cfg) for the integration    *)
+(*  files above                                                              *)
+(***************************************************************************)
+Prefixn(o) == LET RECURSIVE cut(_)
+                  cut(tx) == IF tx # <<>> /\ Last(tx) \in {47, 95} THEN cut(Front(tx)) ELSE tx
+              IN cut(Prefix(o))                                   \* "%prefixn the same as %prefix but without trailing slashes or underscores"
+FilterSeen(o) == IF o.int = 2 THEN 1 ELSE 0
+DirAllowed(o, md) == o.int = 1 \/ md.k \in {"r", "u"}
+DirectionOf(md) == IF md.k = "r" THEN <<114>> ELSE IF md.k = "w" THEN <<119>> ELSE <<117>>
+TypeOf(fd) == IF fd.vl = 1 THEN T_list5 ELSE T_number
+DefTopic(w, m, f) == Prefixn(w.o) \o T_cfgS \o Normalized(w.msgs[m].c) \o <<47>> \o Normalized(w.msgs[m].n) \o <<47>> \o Normalized(FieldName(w, m, f))
+(* ChangeLog: "also include write messages as read-only ones in MQTT definition topic if writes are excluded": direction "uw" *)
+DefDirs(w, m) == IF w.msgs[m].k = "w" /\ ~DirAllowed(w.o, w.msgs[m]) THEN {<<117, 119>>} ELSE {DirectionOf(w.msgs[m])}
+DefPayloads(w, m, f) == {Join(<<PubTopic(w, m, f), w.msgs[m].c, w.msgs[m].n, FieldName(w, m, f), TypeOf(w.msgs[m].fl[f]), d>>, <<124>>) : d \in DefDirs(w, m)}
+GDefTopic(w, x) == Prefixn(w.o) \o T_cfgS \o T_globalS \o Normalized(x)
+GDefPayload(w, x) == GlobalTopic(w.o, x) \o <<124>> \o x
+(* must (m, f) be announced / may it be announced, given the data seen so far *)
+DefMust(w, st, m) == DirAllowed(w.o, w.msgs[m]) /\ (FilterSeen(w.o) = 0 \/ st.val[m] # <<>>)
+DefMay(w, st, m) == IF w.msgs[m].k = "w" THEN TRUE ELSE DefMust(w, st, m)      \* write messages with w excluded / without data: open
 
 (***************************************************************************)
 (* P.3  documented telegrams                                                *)
@@ -275,11 +338,11 @@ EvD == Ev("D")
 EvB == Ev("B")
 (* the base topics incoming messages are built on; same numbering in every world of a message family:                    *)
 (*  1..4 the messages, 5 second field of the two-field message, 6 circuit ca, 7 the root, 8 circuits c*, 9 names t* of ca,  *)
-(*  10 unknown name in ca.  kind: "m" message/field, "l" list scope (circuit filter, wildcard, name filter, wildcard),       *)
+(*  10 unknown name in ca, 11 PREFIX/config (for the configured restart topic PREFIX/config/restart).  kind: "m" message/field, "l" list scope (circuit filter, wildcard, name filter, wildcard),       *)
 (*  "x" nothing known.  List scopes are only defined for the regular templates PREFIX/%circuit/%name[/%field].             *)
 TwoFieldMsg(w) == CHOOSE m \in Msgs(w) : Len(w.msgs[m].fl) = 2
 Base(kind, tx, m, f, lc, lcw, ln, lnw) == [kind |-> kind, t |-> tx, m |-> m, f |-> f, lc |-> lc, lcw |-> lcw, ln |-> ln, lnw |-> lnw]
-Bases(w) ==
+BasesOf(w) ==
   LET o == w.o
       p == Tpl(o)
       mt(m) == IF Static(o) THEN Subst(p, <<>>, <<>>, <<>>) \o <<47>> \o w.msgs[m].c \o <<47>> \o w.msgs[m].n ELSE MsgTopic(w, m)
@@ -292,14 +355,16 @@ Bases(w) ==
            Base(lk, DropSlash(Prefix(o)), 0, 0, <<>>, 0, <<>>, 0),
            Base(lk, circ(<<99, 42>>), 0, 0, <<99>>, 1, <<>>, 0),
            Base(lk, DropSlash(Subst(Before(p, 3), T_ca, <<116, 42>>, <<>>)), 0, 0, T_ca, 0, <<116>>, 1),
-           Base("x", DropSlash(Subst(Before(p, 3), T_ca, T_nix, <<>>)), 0, 0, <<>>, 0, <<>>, 0) >>
+           Base("x", DropSlash(Subst(Before(p, 3), T_ca, T_nix, <<>>)), 0, 0, <<>>, 0, <<>>, 0),
+           Base("r", DropSlash(Prefix(o)) \o <<47>> \o T_config, 0, 0, <<>>, 0, <<>>, 0) >>
+Bases(w) == w.bs
 InTopic(w, ev) == Bases(w)[ev.b].t \o <<47>> \o ev.d \o ev.a
 
 World(fam, msgs, o, nosig, brokerdown) ==
   LET w0 == [fam |-> fam, dsrc |-> "none", d |-> <<>>, users |-> <<>>, dyn |-> 1, nosig |-> nosig, brokerdown |-> brokerdown,
              args |-> OptArgs(o), csv |-> CsvOf(msgs), msgs |-> msgs, o |-> o]
   IN [fam |-> fam, dsrc |-> "none", d |-> <<>>, users |-> <<>>, dyn |-> 1, nosig |-> nosig, brokerdown |-> brokerdown,
-      args |-> OptArgs(o), csv |-> CsvOf(msgs), msgs |-> msgs, o |-> o, bases |-> [k \in 1..10 |-> Bases(w0)[k].t]]
+      args |-> OptArgs(o), csv |-> CsvOf(msgs), msgs |-> msgs, o |-> o, intfile |-> IntFile(o.int), bs |-> BasesOf(w0), bases |-> [k \in 1..11 |-> BasesOf(w0)[k].t]]
 
 (***************************************************************************)
 (* P.4  the monitor                                                         *)
@@ -311,8 +376,8 @@ World(fam, msgs, o, nosig, brokerdown) ==
 (*  priorities; q incoming messages handed to the broker; cnt telegrams        *)
 (*  answered per message; bad = set of <<class, event index>>                  *)
 (***************************************************************************)
-PInit(w) == [now |-> 0, conn |-> 1 - w.brokerdown, val |-> [m \in Msgs(w) |-> <<>>], may |-> [m \in Msgs(w) |-> 0],
-             req |-> [m \in Msgs(w) |-> FALSE], ans |-> [m \in Msgs(w) |-> FALSE], pr |-> [m \in Msgs(w) |-> 0], q |-> <<>>, bad |-> {}]
+PInit(w) == [now |-> 0, sg |-> 1 - w.nosig, bu |-> 1 - w.brokerdown, rc |-> -1, conn |-> 1 - w.brokerdown, val |-> [m \in Msgs(w) |-> <<>>], may |-> [m \in Msgs(w) |-> 0],
+             req |-> [m \in Msgs(w) |-> FALSE], ans |-> [m \in Msgs(w) |-> FALSE], att |-> [m \in Msgs(w) |-> <<>>], defd |-> {}, once |-> {}, gdef |-> {}, pr |-> [m \in Msgs(w) |-> 0], q |-> <<>>, bad |-> {}]
 Flag(st, cls, k) == IF \E x \in st.bad : x[1] = cls THEN st ELSE [st EXCEPT !.bad = @ \cup {<<cls, k>>}]
 PUpdate(w, st, m, v) ==
   LET counts == w.o.chg = 0 \/ st.val[m] # v
@@ -328,7 +393,7 @@ TelegramInfo(w, tg, answer) ==
           ELSE LET m == CHOOSE x \in cands : TRUE IN <<m, IF w.msgs[m].k = "w" THEN SubSeq(tg, 4 + Len(w.msgs[m].id), Len(tg)) ELSE answer>>
 
 (* ---- requests ---- *)
-NoReq == [d |-> "none", m |-> 0, f |-> 0, bus |-> <<>>, gotbus |-> FALSE, pubs |-> <<>>, scope |-> {}, wantpub |-> "no", data |-> <<>>, k |-> 0]
+NoReq == [d |-> "none", why |-> "", m |-> 0, f |-> 0, bus |-> <<>>, gotbus |-> FALSE, pubs |-> <<>>, scope |-> {}, wantpub |-> "no", data |-> <<>>, k |-> 0]
 MatchesList(w, bs, m) ==
   LET md == w.msgs[m]
   IN /\ (bs.lc = <<>> \/ (IF bs.lcw = 1 THEN StartsWith(md.c, bs.lc) ELSE md.c = bs.lc))
@@ -343,23 +408,27 @@ Resolve(w, bs, write) ==
 PollArg(a) == IF a = <<>> \/ Head(a) # 63 THEN -1 ELSE ParseDec(Tail(a))
 OpenReq(w, st, ev, k) ==
   LET bs == Bases(w)[ev.b]
-  IN IF ev.d = T_list THEN
+  IN IF ev.d = T_restart THEN [NoReq EXCEPT !.d = IF w.o.int > 0 /\ bs.kind = "r" THEN "restart" ELSE "nothing", !.why = "unknown-direction", !.k = k]
+     ELSE IF ev.d = T_list THEN
        IF bs.kind = "l" THEN [NoReq EXCEPT !.d = "list", !.k = k, !.wantpub = "each",
                                            !.scope = {m \in Msgs(w) : MatchesList(w, bs, m) /\ (ev.pl = <<>> \/ st.val[m] # <<>>)}]
        ELSE [NoReq EXCEPT !.d = "open", !.k = k]
+     ELSE IF ev.a # <<>> /\ (ev.d # T_get \/ PollArg(ev.a) \notin 1..9) THEN [NoReq EXCEPT !.d = "open", !.k = k]   \* undocumented argument forms
      ELSE IF ev.d = T_get THEN
        LET m == Resolve(w, bs, FALSE)
-       IN IF m = 0 THEN [NoReq EXCEPT !.d = "nothing", !.k = k]
+       IN IF m = 0 THEN [NoReq EXCEPT !.d = "nothing", !.why = "get-unknown-message", !.k = k]
           ELSE IF w.msgs[m].k = "u" THEN [NoReq EXCEPT !.d = "get", !.k = k, !.m = m, !.f = bs.f, !.wantpub = IF st.val[m] = <<>> THEN "may" ELSE "one"]
-          ELSE IF w.nosig = 1 THEN [NoReq EXCEPT !.d = "get", !.k = k, !.m = m, !.f = bs.f]
+          ELSE IF st.sg = 0 THEN [NoReq EXCEPT !.d = "get", !.why = "no-signal", !.k = k, !.m = m, !.f = bs.f]
           ELSE [NoReq EXCEPT !.d = "get", !.k = k, !.m = m, !.f = bs.f, !.bus = ReadTelegram(w.msgs[m]), !.wantpub = "one"]
      ELSE IF ev.d = T_set THEN
        LET m == Resolve(w, bs, TRUE)
            xs == IF m = 0 THEN <<-1>> ELSE SetValues(w.msgs[m], ev.pl)
-       IN IF m = 0 \/ xs = <<-1>> \/ bs.f # 0 THEN [NoReq EXCEPT !.d = IF m # 0 /\ bs.f # 0 THEN "open" ELSE "nothing", !.k = k]
-          ELSE IF w.nosig = 1 THEN [NoReq EXCEPT !.d = "set", !.k = k, !.m = m]
+       IN IF m # 0 /\ bs.f # 0 THEN [NoReq EXCEPT !.d = "open", !.k = k]
+          ELSE IF m = 0 THEN [NoReq EXCEPT !.d = "nothing", !.why = IF bs.kind = "m" THEN "set-on-message-without-write-definition" ELSE "set-unknown-message", !.k = k]
+          ELSE IF xs = <<-1>> THEN [NoReq EXCEPT !.d = "nothing", !.why = "set-invalid-value", !.k = k]
+          ELSE IF st.sg = 0 THEN [NoReq EXCEPT !.d = "set", !.why = "no-signal", !.k = k, !.m = m, !.data = xs]
           ELSE [NoReq EXCEPT !.d = "set", !.k = k, !.m = m, !.bus = WriteTelegram(w.msgs[m], xs), !.wantpub = "may", !.data = xs]
-     ELSE [NoReq EXCEPT !.d = "nothing", !.k = k]
+     ELSE [NoReq EXCEPT !.d = "nothing", !.why = "unknown-direction", !.k = k]
 (* does a publish of (m, f) belong to the answer of the open request *)
 AnswerFits(w, rq, m, f) ==
   /\ rq.d \in {"get", "set", "list", "open"}
@@ -371,7 +440,8 @@ AnswerFits(w, rq, m, f) ==
 CloseReq(w, st, rq, k) ==
   LET need(m) == IF ByField(w.o) THEN {<<m, f>> : f \in Flds(w, m)} ELSE {<<m, 0>>}
       got == {rq.pubs[i] : i \in DOMAIN rq.pubs}
-      s1 == IF rq.bus # <<>> /\ ~rq.gotbus THEN Flag(st, <<"request", rq.d, "no-telegram">>, k) ELSE st
+      s0 == IF rq.d = "set" /\ rq.m # 0 /\ ~rq.gotbus THEN [st EXCEPT !.att[rq.m] = rq.data] ELSE st
+      s1 == IF rq.bus # <<>> /\ ~rq.gotbus THEN Flag(s0, <<"request", rq.d, "no-telegram">>, k) ELSE s0
       s2 == IF rq.wantpub = "one" /\ (rq.bus = <<>> \/ rq.gotbus) /\ ~(need(rq.m) \subseteq got) /\ ~(rq.f > 0 /\ <<rq.m, rq.f>> \in got)
               THEN Flag(s1, <<"request", rq.d, "not-published">>, k)
             ELSE IF rq.wantpub = "each" /\ \E m \in rq.scope : ~(need(m) \subseteq got) THEN Flag(s1, <<"request", "list", "message-not-published">>, k)
@@ -390,7 +460,7 @@ GName(x) == IF x = T_running THEN "running" ELSE IF x = T_version THEN "version"
 GlobalPayloadOk(w, st, x, p) ==
   LET q(tx) == IF w.o.js = "n" THEN tx ELSE Quote(tx)
   IN IF x = T_running THEN p = T_true
-     ELSE IF x = T_signal THEN p = (IF w.nosig = 1 THEN T_false ELSE T_true)
+     ELSE IF x = T_signal THEN p = (IF st.sg = 0 THEN T_false ELSE T_true)
      ELSE IF x = T_uptime THEN p = Dec(st.now)
      ELSE IF x = T_version THEN Len(p) > 2 /\ (w.o.js = "n" \/ (Head(p) = 34 /\ Last(p) = 34))
      ELSE TRUE
@@ -412,37 +482,63 @@ PItem(w, ws, x, k, inM) ==
     IN IF idx = {} THEN [ws EXCEPT !.st = closed, !.rq = [NoReq EXCEPT !.d = "open", !.k = k]]
        ELSE LET i == CHOOSE j \in idx : \A j2 \in idx : j <= j2
                 ev == closed.q[i]
-            IN [ws EXCEPT !.st = [closed EXCEPT !.q = SubSeq(@, i + 1, Len(@))], !.rq = OpenReq(w, closed, ev, k)]
+                rq == OpenReq(w, closed, ev, k)
+            IN [ws EXCEPT !.st = [closed EXCEPT !.q = SubSeq(@, i + 1, Len(@)), !.defd = IF rq.d = "restart" THEN {} ELSE @,
+                                                !.once = IF rq.d = "restart" THEN {} ELSE @, !.gdef = IF rq.d = "restart" THEN {} ELSE @], !.rq = rq]
   ELSE IF x.k = "bus" THEN
     LET info == TelegramInfo(w, x.t, x.p)
         expected == inM /\ ws.rq.bus # <<>> /\ ~ws.rq.gotbus /\ x.t = ws.rq.bus
         st1 == IF info[1] = 0 THEN st ELSE PUpdate(w, st, info[1], info[2])
-        st2 == IF expected \/ ~inM THEN st1 ELSE Flag(st1, IF ws.rq.d \in {"get", "set"} THEN <<"request", ws.rq.d, "other-telegram">> ELSE <<"telegram-without-request">>, k)
+        st2 == IF expected \/ ~inM \/ ws.rq.d = "open" THEN st1 ELSE Flag(st1, IF ws.rq.d # "none" THEN <<"request", ws.rq.d, ws.rq.why, "unexpected-telegram">> ELSE <<"telegram-without-request">>, k)
     IN [ws EXCEPT !.st = st2, !.rq = IF expected THEN [@ EXCEPT !.gotbus = TRUE] ELSE @]
   ELSE IF x.k = "pub" THEN
     LET s0 == IF st.conn = 0 THEN Flag(st, <<"publish-while-disconnected">>, k) ELSE st
-        s1 == IF x.q # w.o.qos THEN Flag(s0, <<"qos-differs-from-mqttqos">>, k) ELSE s0
         gx == GlobalOf(w, x.t)
         cands == MsgCands(w, x.t)
+        s1 == IF x.q # w.o.qos THEN Flag(s0, <<"qos-differs-from-mqttqos", IF gx # <<>> THEN GName(gx) ELSE IF x.e = 1 THEN "message-without-data" ELSE "message">>, k) ELSE s0
     IN IF gx # <<>> THEN
          LET s2 == IF ~GlobalPayloadOk(w, s1, gx, x.p) THEN Flag(s1, <<"global-payload", GName(gx)>>, k) ELSE s1
-             s3 == IF (w.o.ret = 1 \/ gx = T_running) /\ x.r # 1 THEN Flag(s2, <<"retain:global-not-retained">>, k) ELSE s2
+             s3 == IF (w.o.ret = 1 \/ gx = T_running) /\ x.r # 1 THEN Flag(s2, <<"retain:global-not-retained", GName(gx)>>, k) ELSE s2
          IN [ws EXCEPT !.st = s3, !.ackrun = @ \/ (gx = T_running /\ ws.ack)]
        ELSE IF cands # {} THEN
          LET mf == PickMsg(w, s1, ws.rq, cands, x.p)
              m == mf[1]
-             s2 == IF ~PayloadOk(w, m, mf[2], s1.val[m], x.p) THEN Flag(s1, IF w.o.js = "s" THEN <<"payload", "json-short">> ELSE <<"payload">>, k) ELSE s1
+             failedSet == s1.att[m] # <<>> /\ s1.att[m] # s1.val[m] /\ PayloadOk(w, m, mf[2], s1.att[m], x.p)
+             s2 == IF PayloadOk(w, m, mf[2], s1.val[m], x.p) THEN s1
+                   ELSE Flag(s1, IF failedSet THEN <<"value-of-a-set-that-was-never-sent-is-published">> ELSE IF w.o.js = "s" THEN <<"payload", "json-short">> ELSE <<"payload">>, k)
              s3 == IF x.r # w.o.ret THEN Flag(s2, <<"retain:message">>, k) ELSE s2
          IN IF inM /\ AnswerFits(w, ws.rq, m, mf[2])
-              THEN [ws EXCEPT !.st = [s3 EXCEPT !.ans[m] = TRUE, !.may[m] = 0, !.req[m] = FALSE], !.rq = [@ EXCEPT !.pubs = Append(@, mf)]]
+              THEN [ws EXCEPT !.st = IF ws.rq.gotbus THEN [s3 EXCEPT !.ans[m] = TRUE, !.may[m] = 0, !.req[m] = FALSE] ELSE s3,   \* the answer carries the telegram's update
+                            !.rq = [@ EXCEPT !.pubs = Append(@, mf)]]
+            ELSE IF inM /\ ws.rq.d \notin {"none", "open"} /\ s3.may[m] = 0 /\ ~failedSet
+              THEN [ws EXCEPT !.st = Flag(s3, <<"request", ws.rq.d, ws.rq.why, "unexpected-publish">>, k)]
+            ELSE IF failedSet THEN [ws EXCEPT !.st = CloseReq(w, [s3 EXCEPT !.att[m] = <<>>], ws.rq, k), !.rq = NoReq]
             ELSE [ws EXCEPT !.st = CloseReq(w, s3, ws.rq, k), !.rq = NoReq, !.fl = Append(@, mf)]
+       ELSE IF w.o.int > 0 /\ StartsWith(x.t, Prefixn(w.o) \o T_cfgS) THEN
+         LET dc == {mf \in UNION {{<<m, f>> : f \in Flds(w, m)} : m \in Msgs(w)} : DefTopic(w, mf[1], mf[2]) = x.t}
+             gc == {y \in GlobalNames : GDefTopic(w, y) = x.t}
+         IN IF dc # {} THEN
+              LET mf == CHOOSE y \in dc : TRUE
+                  m == mf[1]
+                  s2 == IF x.p \notin DefPayloads(w, m, mf[2]) THEN Flag(s1, <<"definition", "payload">>, k) ELSE s1
+                  s3 == IF x.r # 1 THEN Flag(s2, <<"definition", "retain">>, k) ELSE s2
+                  s4 == IF ~DefMay(w, s3, m) THEN Flag(s3, <<"definition", "of-a-message-the-filters-exclude">>, k) ELSE s3
+                  s5 == IF mf \in s4.once THEN Flag(s4, <<"definition", "repeated">>, k) ELSE s4
+              IN [ws EXCEPT !.st = [s5 EXCEPT !.defd = @ \cup {mf}, !.once = @ \cup {mf}], !.defnow = @ \cup {m}]
+            ELSE IF gc # {} THEN
+              LET y == CHOOSE z \in gc : TRUE
+                  s2 == IF x.p # GDefPayload(w, y) THEN Flag(s1, <<"definition", "global", "payload">>, k) ELSE s1
+                  s3 == IF x.r # w.o.ret THEN Flag(s2, <<"definition", "global", "retain">>, k) ELSE s2
+              IN [ws EXCEPT !.st = [s3 EXCEPT !.gdef = @ \cup {y}]]
+            ELSE [ws EXCEPT !.st = Flag(s1, IF x.t = Prefixn(w.o) \o T_cfgS \o T_globalS THEN <<"definition", "global", "field-variable-not-set">>
+                                            ELSE <<"definition", "topic">>, k)]
        ELSE [ws EXCEPT !.st = Flag(s1, <<"publish-to-undocumented-topic">>, k)]
   ELSE ws
 RECURSIVE PItems(_, _, _, _, _, _)
 PItems(w, ws, outs, i, k, inM) == IF i > Len(outs) THEN ws ELSE PItems(w, PItem(w, ws, outs[i], k, inM), outs, i + 1, k, inM)
 
 (* the publishes of the update flush of one iteration: per message at most one complete set, justified by a pending update *)
-FlushJudge(w, st, fl, k) ==
+FlushJudge(w, st, fl, defnow, k) ==
   LET byMsg(m) == SelectSeq(fl, LAMBDA mf : mf[1] = m)
       need(m) == IF ByField(w.o) THEN {<<m, f>> : f \in Flds(w, m)} ELSE {<<m, 0>>}
       RECURSIVE go(_, _)
@@ -453,23 +549,24 @@ FlushJudge(w, st, fl, k) ==
                  s1 == IF got = <<>> THEN s
                        ELSE LET once == Len(got) = Cardinality(need(m)) /\ {got[i] : i \in DOMAIN got} = need(m)
                                 sa == IF ~once THEN Flag(s, IF Len(got) > Cardinality(need(m)) THEN <<"published-more-than-once-per-iteration">> ELSE <<"published-fields-incomplete">>, k) ELSE s
-                                sb == IF s.may[m] = 0 THEN Flag(sa, IF s.ans[m] THEN <<"republished-after-request-answer">> ELSE <<"published-without-update">>, k) ELSE sa
+                                sb == IF s.may[m] = 0 /\ m \notin defnow THEN Flag(sa, IF s.ans[m] THEN <<"republished-after-request-answer">> ELSE <<"republished-without-new-update">>, k) ELSE sa
                             IN [sb EXCEPT !.may[m] = 0, !.req[m] = FALSE, !.ans[m] = FALSE]
              IN go(s1, ms \ {m})
   IN go(st, Msgs(w))
 
 (* ---- one event ---- *)
 PEvent(w, st, ev, o, k) ==
-  LET ws0 == [st |-> st, rq |-> NoReq, fl |-> <<>>, ack |-> FALSE, ackrun |-> FALSE, acksub |-> FALSE]
+  LET ws0 == [st |-> st, rq |-> NoReq, fl |-> <<>>, ack |-> FALSE, ackrun |-> FALSE, acksub |-> FALSE, defnow |-> {}]
       buses == SelectSeq(o.outs, LAMBDA x : x.k = "bus")
   IN
-  IF ev.e = "T" THEN [st EXCEPT !.now = @ + ev.n]
+  IF ev.e = "T" THEN [st EXCEPT !.now = @ + ev.n, !.rc = IF ev.n >= 16 /\ st.bu = 1 /\ st.conn = 0 /\ @ < 0 THEN 0 ELSE @]
   ELSE IF ev.e = "U" THEN PUpdate(w, st, ev.m, ev.v)
   ELSE IF ev.e = "I" THEN [st EXCEPT !.q = Append(@, ev)]
-  ELSE IF ev.e \in {"D", "B"} THEN (IF o.outs # <<>> THEN Flag(st, <<"output-without-cause">>, k) ELSE st)
+  ELSE IF ev.e \in {"D", "B"} THEN LET s1 == [st EXCEPT !.bu = IF ev.e = "B" THEN 1 ELSE 0, !.rc = -1]
+                                    IN IF o.outs # <<>> THEN Flag(s1, <<"output-without-cause">>, k) ELSE s1
   ELSE IF ev.e = "R" THEN
     LET ws == PItems(w, ws0, o.outs, 1, k, FALSE)
-        want == IF w.nosig = 1 THEN <<>> ELSE <<ReadTelegram(w.msgs[ev.m])>>
+        want == IF st.sg = 0 THEN <<>> ELSE <<ReadTelegram(w.msgs[ev.m])>>
     IN IF [i \in DOMAIN buses |-> buses[i].t] # want THEN Flag(ws.st, <<"client-read:telegrams">>, k) ELSE ws.st
   ELSE IF ev.e = "F" THEN
     LET ws == PItems(w, ws0, o.outs, 1, k, FALSE)
@@ -480,9 +577,12 @@ PEvent(w, st, ev, o, k) ==
         s1 == CloseReq(w, ws.st, ws.rq, k)
         s2 == IF ws.ack /\ ~ws.ackrun THEN Flag(s1, <<"connect:running-not-published">>, k) ELSE s1
         s3 == IF ws.ack /\ ~ws.acksub /\ ~Static(w.o) THEN Flag(s2, <<"connect:not-subscribed">>, k) ELSE s2
-        s4 == FlushJudge(w, s3, ws.fl, k)
-        (* poll priority: "option to set poll priority with MQTT get topic" *)
-    IN s4
+        s4 == FlushJudge(w, s3, ws.fl, ws.defnow, k)
+        (* "added automatic reconnect to MQTT broker": once the broker is back and 16 s have passed, the third iteration at the latest is connected *)
+        s5 == IF s4.conn = 1 \/ s4.bu = 0 \/ s4.rc < 0 THEN [s4 EXCEPT !.rc = -1]
+              ELSE IF s4.rc >= 2 THEN Flag([s4 EXCEPT !.rc = -1], <<"not-reconnected-after-the-broker-is-back">>, k)
+              ELSE [s4 EXCEPT !.rc = @ + 1]
+    IN s5
   ELSE st
 (* poll priorities after the event: only a delivered get with ?N on an active read message sets one *)
 PrioJudge(w, st0, st, ev, o, k) ==
@@ -491,7 +591,7 @@ PrioJudge(w, st0, st, ev, o, k) ==
       setFor(m) == {PollArg(st0.q[i].a) : i \in {j \in delivered : st0.q[j].d = T_get /\ Resolve(w, Bases(w)[st0.q[j].b], FALSE) = m /\ PollArg(st0.q[j].a) \in 1..9}}
       okm(m) == IF ev.e = "M" /\ w.msgs[m].k = "r" /\ setFor(m) # {} THEN o.pr[m] \in setFor(m) ELSE o.pr[m] = st.pr[m]
       s1 == IF \A m \in Msgs(w) : okm(m) THEN st ELSE Flag(st, <<"poll-priority">>, k)
-  IN [s1 EXCEPT !.pr = [m \in Msgs(w) |-> o.pr[m]]]
+  IN [s1 EXCEPT !.pr = [m \in Msgs(w) |-> o.pr[m]], !.sg = o.sg, !.once = {mf \in @ : o.pr[mf[1]] = st.pr[mf[1]]}]
 RECURSIVE PFold(_, _, _, _, _)
 PFold(w, st, evs, obs, k) ==
   IF k > Len(evs) THEN st
@@ -501,5 +601,269 @@ PFold(w, st, evs, obs, k) ==
 PRun(w, evs, obs) ==
   LET st == PFold(w, PInit(w), evs, obs, 1)
       lost == {m \in Msgs(w) : st.req[m]}
-  IN IF lost # {} THEN Flag(st, <<"update-not-published">>, Len(evs)).bad ELSE st.bad
+      s1 == IF lost # {} THEN Flag(st, <<"update-not-published">>, Len(evs)) ELSE st
+      undefd == {mf \in UNION {{<<m, f>> : f \in Flds(w, m)} : m \in Msgs(w)} : DefMust(w, s1, mf[1]) /\ mf \notin s1.defd}
+      s2 == IF w.o.int > 0 /\ s1.conn = 1 /\ undefd # {} THEN Flag(s1, <<"definition", "missing">>, Len(evs)) ELSE s1
+      s3 == IF w.o.int > 0 /\ s2.conn = 1 /\ s2.gdef # GlobalNames THEN Flag(s2, <<"definition", "global", "missing">>, Len(evs)) ELSE s2
+  IN s3.bad
+(***************************************************************************)
+(* Part S - the handler as coded                                            *)
+(*  One operator per event, transcribed from MqttHandler::run /              *)
+(*  notifyMqttStatus / notifyMqttTopic / publishMessage, DataSink::            *)
+(*  notifyUpdate, the sink feed and the periodic tasks of MainLoop::run,        *)
+(*  Message::storeLastData / prepareMaster, StringReplacer::match, and the      *)
+(*  fake client of the harness (its contract follows MqttClientMosquitto).      *)
+(*  Times are absolute seconds (BASE = start); 0 = never.                       *)
+(***************************************************************************)
+BASE == 1000
+OPub(tx, p, r, q, e) == [k |-> "pub", t |-> tx, p |-> p, r |-> r, q |-> q, e |-> e]
+OSub(tx) == [k |-> "sub", t |-> tx, p |-> <<>>, r |-> 0, q |-> 0, e |-> 0]
+OBus(tx, p) == [k |-> "bus", t |-> tx, p |-> p, r |-> 0, q |-> 0, e |-> 0]
+OIn(tx, p, n) == [k |-> "in", t |-> tx, p |-> p, r |-> n, q |-> 0, e |-> 0]
+ORun(c0, c1, ack) == [k |-> "run", t |-> <<>>, p |-> <<>>, r |-> c0, q |-> c1, e |-> ack]
+B2N(x) == IF x THEN 1 ELSE 0
+AllFixes == {"version-flags", "empty-qos", "changed-window", "publish-once", "scan-connected", "short-keys", "global-prefix",
+             "set-needs-write", "store-after-send", "match-all", "global-def-field"}
+SGlobalHasName(o) == o.gl = <<>> \/ HasVar(o.x.gp, 2) \/ "global-prefix" \in FIX
+SGlobal(o, x) == IF o.gl = <<>> THEN Prefix(o) \o T_globalS \o x
+                 ELSE LET gp == o.x.gp IN IF HasVar(gp, 2) THEN Subst(gp, T_global, x, <<>>)
+                                                               ELSE Subst(Before(gp, 2), T_global, <<>>, <<>>) \o (IF "global-prefix" \in FIX THEN x ELSE <<>>)
+SQ(o, tx) == IF o.js = "n" THEN tx ELSE Quote(tx)
+T_versionText == <<101, 98, 117, 115, 100, 32, 120>>    \* "ebusd x": the real text is open, the comparison ignores it
+(* publishTopic(topic, data, retain) / publishEmptyTopic(topic) of the handler *)
+SPub(o, tx, p, retain) == OPub(tx, p, IF o.ret = 1 \/ retain THEN 1 ELSE 0, o.qos, 0)
+SPubEmpty(o, tx) == OPub(tx, <<>>, o.ret, IF "empty-qos" \in FIX THEN o.qos ELSE 0, 1)
+
+SInit(w) == [a |-> BASE, ms |-> [m \in Msgs(w) |-> [lu |-> 0, lc |-> 0, data |-> <<>>, pr |-> 0, sl |-> FALSE, cnt |-> 0, nl |-> 0, dp |-> 0, uc |-> 0, ct |-> BASE, dh |-> 0]],
+             sink |-> 1, upd |-> {}, conn |-> 1 - w.brokerdown,
+             cl |-> [up |-> 1 - w.brokerdown, ack |-> 1 - w.brokerdown, lost |-> 0, subs |-> <<>>], q |-> <<>>,
+             defs |-> 0, ltr |-> BASE, allowRe |-> FALSE, sig |-> FALSE, scanst |-> 0, mlt |-> BASE, reload |-> TRUE, hs |-> 1 - w.nosig]
+SStartOuts(w) == <<[k |-> "will", t |-> SGlobal(w.o, T_running), p |-> T_false, r |-> 1, q |-> 0, e |-> 0]>>
+
+(* Message::storeLastData(slave) and (master, for write messages) *)
+StoreSlave(mr, a, v) == [mr EXCEPT !.uc = @ + 1, !.lu = a, !.lc = IF mr.data # v THEN a ELSE @, !.data = v]
+StoreMasterW(mr, a, v) == [mr EXCEPT !.uc = @ + 1, !.lu = a, !.lc = IF mr.data # v THEN a ELSE @, !.data = v]
+StoreSlaveW(mr, a) == [mr EXCEPT !.lu = a, !.lc = IF mr.sl THEN @ ELSE a, !.sl = TRUE]
+
+(* BusHandler::notifyProtocolMessage -> MessageMap::invalidateCache: every completed telegram of a message forgets the update time *)
+(* of the other messages of the same circuit and name (its read / write / passive pendants)                                *)
+SInvalidate(w, s, m) == [s EXCEPT !.ms = [x \in Msgs(w) |-> IF x # m /\ w.msgs[x].c = w.msgs[m].c /\ w.msgs[x].n = w.msgs[m].n
+                                                             THEN [s.ms[x] EXCEPT !.lu = 0] ELSE s.ms[x]]]
+
+(* ---- payloads as coded (compared modulo white space) ---- *)
+SFieldPlain(o, fd, x) == (IF o.verb = 1 THEN fd.n \o <<61>> ELSE <<>>) \o FieldText(fd, x) \o (IF o.verb = 1 /\ fd.u # <<>> THEN <<32>> \o fd.u ELSE <<>>)
+SFieldObj(o, fd, x) == T_jvalue \o FieldJson(fd, x) \o (IF o.verb = 1 /\ fd.u # <<>> THEN <<44, 34, 117, 110, 105, 116, 34, 58>> \o Quote(fd.u) ELSE <<>>) \o <<125>>
+SPayload(w, m, data) ==
+  LET o == w.o
+      md == w.msgs[m]
+      body == IF o.js = "n" THEN Join([f \in DOMAIN md.fl |-> SFieldPlain(o, md.fl[f], data[f])], <<59>>)
+              ELSE IF o.js = "j" THEN Join([f \in DOMAIN md.fl |-> Quote(md.fl[f].n) \o <<58>> \o SFieldObj(o, md.fl[f], data[f])], <<44>>)
+              ELSE Join([f \in DOMAIN md.fl |-> Quote(IF "short-keys" \in FIX THEN md.fl[f].n ELSE Dec(f - 1)) \o <<58>> \o FieldJson(md.fl[f], data[f])], <<44>>)
+  IN IF o.js = "n" THEN (IF Static(o) THEN md.c \o <<59>> \o md.n \o <<59>> ELSE <<>>) \o body
+     ELSE <<123>> \o (IF Static(o) THEN T_jcircuit \o Quote(md.c) \o <<44>> \o T_jname \o Quote(md.n) \o <<44, 34, 102, 105, 101, 108, 100, 115, 34, 58, 123>> ELSE <<>>)
+          \o body \o (IF Static(o) THEN <<125>> ELSE <<>>) \o <<125>>
+SFieldPayload(w, m, f, data) ==
+  LET o == w.o
+      fd == w.msgs[m].fl[f]
+  IN IF o.js = "n" THEN SFieldPlain(o, fd, data[f]) ELSE IF o.verb = 1 THEN SFieldObj(o, fd, data[f]) ELSE FieldJson(fd, data[f])
+(* MqttHandler::publishMessage *)
+SPublishMessage(w, s, m, inclNoData) ==
+  LET o == w.o
+      mr == s.ms[m]
+      noData == inclNoData /\ mr.lu = 0
+  IN IF ~ByField(o) THEN (IF noData THEN <<SPubEmpty(o, PubTopic(w, m, 0))>>
+                          ELSE IF mr.data = <<>> THEN <<>>
+                          ELSE <<SPub(o, PubTopic(w, m, 0), SPayload(w, m, mr.data), FALSE)>>)
+     ELSE IF noData THEN [f \in Flds(w, m) |-> SPubEmpty(o, PubTopic(w, m, f))]
+     ELSE IF mr.data = <<>> THEN <<>>
+     ELSE [f \in Flds(w, m) |-> SPub(o, PubTopic(w, m, f), SFieldPayload(w, m, f, mr.data), FALSE)]
+
+(* ---- StringReplacer::match ---- *)
+SAssign(acc, v, tx) == IF v = 1 THEN [acc EXCEPT !.c = tx] ELSE IF v = 2 THEN [acc EXCEPT !.n = tx] ELSE IF v = 3 THEN [acc EXCEPT !.f = tx] ELSE acc
+Min2(x, y) == IF x < y THEN x ELSE y
+RECURSIVE SMatch(_, _, _, _, _)
+SMatch(parts, str, idx, last, acc) ==
+  IF idx > Len(parts) THEN (IF "match-all" \in FIX /\ last < Len(str) THEN [c |-> <<>>, n |-> <<>>, f |-> <<>>] ELSE acc)
+  ELSE LET part == parts[idx] IN
+    IF part.v = 0 THEN
+      IF SubSeq(str, last + 1, Min2(Len(str), last + Len(part.s))) # part.s THEN acc
+      ELSE SMatch(parts, str, idx + 1, last + Len(part.s), acc)
+    ELSE IF idx < Len(parts) THEN
+      LET pos == IndexOf(str, parts[idx + 1].s, last + 1)
+      IN IF pos = 0 THEN SAssign(acc, part.v, SubSeq(str, last + 1, Len(str)))
+         ELSE SMatch(parts, str, idx + 1, pos - 1, SAssign(acc, part.v, SubSeq(str, last + 1, pos - 1)))
+    ELSE IF IndexOf(str, <<47>>, last + 1) > 0 THEN acc
+    ELSE SAssign(acc, part.v, SubSeq(str, last + 1, Len(str)))
+Contains(tx, p) == p = <<>> \/ IndexOf(tx, p, 1) > 0
+SFind(w, c, n, kind) == LET ms == {m \in Msgs(w) : w.msgs[m].c = c /\ w.msgs[m].n = n /\ w.msgs[m].k = kind} IN IF ms = {} THEN 0 ELSE CHOOSE m \in ms : \A x \in ms : m <= x
+LastIndexOf(tx, c) == LET ks == {k \in DOMAIN tx : tx[k] = c} IN IF ks = {} THEN 0 ELSE CHOOSE k \in ks : \A j \in ks : j <= k
+
+(* BusHandler::readFromBus on the stepped protocol handler with the scripted slave: [s, outs, ok] *)
+SReadFromBus(w, s, m, input) ==
+  LET md == w.msgs[m]
+  IN IF md.k = "w" THEN
+       LET xs == SetValues(md, input)
+       IN IF xs = <<-1>> THEN [s |-> s, outs |-> <<>>, ok |-> FALSE]
+          ELSE LET s1 == [s EXCEPT !.ms[m] = StoreMasterW(@, s.a, xs)]
+               IN IF s.hs = 0 THEN [s |-> IF "store-after-send" \in FIX THEN s ELSE s1, outs |-> <<>>, ok |-> FALSE]
+                  ELSE [s |-> [SInvalidate(w, s1, m) EXCEPT !.ms[m] = StoreSlaveW(@, s.a)], outs |-> <<OBus(WriteTelegram(md, xs), <<>>)>>, ok |-> TRUE]
+     ELSE IF s.hs = 0 THEN [s |-> s, outs |-> <<>>, ok |-> FALSE]
+     ELSE LET ans == [md.ans EXCEPT ![1] = (@ + s.ms[m].cnt) % 256]
+          IN [s |-> [SInvalidate(w, s, m) EXCEPT !.ms[m] = [StoreSlave(@, s.a, ans) EXCEPT !.cnt = @ + 1]], outs |-> <<OBus(ReadTelegram(md), ans)>>, ok |-> TRUE]
+
+(* MqttHandler::notifyMqttTopic: [s, outs] *)
+SIncoming(w, s, topic, data) ==
+  LET nothing == [s |-> s, outs |-> <<>>]
+      slash == LastIndexOf(topic, 47)
+      dir0 == SubSeq(topic, slash + 1, Len(topic))
+      mt == SubSeq(topic, 1, slash - 1)
+      qpos == IndexOf(dir0, <<63>>, 1)
+      args == IF qpos > 0 THEN SubSeq(dir0, qpos + 1, Len(dir0)) ELSE <<>>
+      dir == IF qpos > 0 THEN SubSeq(dir0, 1, qpos - 1) ELSE dir0
+      restartTopic == Prefixn(w.o) \o T_cfgS \o T_restart
+  IN IF slash = 0 THEN nothing
+     ELSE IF w.o.int > 0 /\ topic = restartTopic THEN [s |-> [s EXCEPT !.defs = 0], outs |-> <<>>]
+     ELSE IF dir0 = <<>> \/ dir \notin {T_set, T_list, T_get} THEN nothing
+     ELSE LET mr == SMatch(Tpl(w.o), mt, 1, 0, [c |-> <<>>, n |-> <<>>, f |-> <<>>])
+     IN IF dir = T_list THEN
+          LET cp == mr.c # <<>> /\ Last(mr.c) = 42
+              c == IF cp THEN Front(mr.c) ELSE mr.c
+              np == mr.n # <<>> /\ Last(mr.n) = 42
+              n == IF np THEN Front(mr.n) ELSE mr.n
+              found(m) == LET md == w.msgs[m] IN
+                          IF cp \/ np THEN Contains(md.c, c) /\ Contains(md.n, n) ELSE (c = <<>> \/ md.c = c) /\ (n = <<>> \/ md.n = n)
+              skip(m) == LET md == w.msgs[m] IN
+                         \/ cp /\ (~StartsWith(md.c, c) \/ (~np /\ n # <<>> /\ md.n # n))
+                         \/ np /\ (~StartsWith(md.n, n) \/ (~cp /\ c # <<>> /\ md.c # c))
+                         \/ data # <<>> /\ s.ms[m].lu = 0
+              sel == {m \in Msgs(w) : found(m) /\ ~skip(m)}
+              RECURSIVE pubs(_)
+              pubs(ms) == IF ms = {} THEN <<>> ELSE LET m == CHOOSE x \in ms : \A y \in ms : x <= y IN SPublishMessage(w, s, m, TRUE) \o pubs(ms \ {m})
+          IN [s |-> s, outs |-> pubs(sel)]
+        ELSE IF mr.n = <<>> THEN nothing
+        ELSE LET isW == dir = T_set
+                 m1 == SFind(w, mr.c, mr.n, IF isW THEN "w" ELSE "r")
+                 m == IF m1 # 0 THEN m1 ELSE IF isW /\ "set-needs-write" \in FIX THEN 0 ELSE SFind(w, mr.c, mr.n, "u")
+             IN IF m = 0 THEN nothing
+                ELSE IF w.msgs[m].k = "u" THEN [s |-> s, outs |-> SPublishMessage(w, s, m, FALSE)]
+                ELSE LET prio == ParseDec(args)
+                         s1 == IF args # <<>> /\ prio \in 1..9 /\ prio # s.ms[m].pr THEN [s EXCEPT !.ms[m].pr = prio, !.ms[m].ct = s.a] ELSE s
+                         rb == SReadFromBus(w, s1, m, data)
+                     IN IF ~rb.ok THEN [s |-> rb.s, outs |-> rb.outs]
+                        ELSE [s |-> [rb.s EXCEPT !.ms[m].dp = rb.s.ms[m].uc], outs |-> rb.outs \o SPublishMessage(w, rb.s, m, FALSE)]
+RECURSIVE SDeliver(_, _, _, _, _)
+SDeliver(w, s, q, n, outs) ==
+  IF q = <<>> THEN [s |-> s, outs |-> outs]
+  ELSE LET x == Head(q) IN
+    IF ~\E i \in DOMAIN s.cl.subs : FilterCovers(s.cl.subs[i], x.t) THEN SDeliver(w, s, Tail(q), n, outs)
+    ELSE LET r == SIncoming(w, s, x.t, x.p) IN SDeliver(w, r.s, Tail(q), n + 1, outs \o <<OIn(x.t, x.p, n)>> \o r.outs)
+
+(* MainLoop::run: periodic tasks, then the sink feed (DataSink::notifyUpdate) *)
+SMainLoop(w, s) ==
+  LET o == w.o
+      due == s.a > s.mlt + 5
+      fire == due /\ s.reload /\ s.hs = 1
+      outs == IF fire /\ s.scanst # 2 /\ SGlobalHasName(o) /\ ("scan-connected" \notin FIX \/ s.conn = 1) THEN <<SPub(o, SGlobal(o, T_scan), SQ(o, T_finished), TRUE)>> ELSE <<>>
+      found == {m \in Msgs(w) : s.ms[m].lu >= s.sink /\ s.ms[m].lu < s.a}
+      add == {m \in found : o.chg = 0 \/ (IF "changed-window" \in FIX THEN s.ms[m].lc > s.ms[m].nl ELSE s.ms[m].lc >= s.sink)}
+      s0 == [s EXCEPT !.ms = [m \in Msgs(w) |-> IF m \in found THEN [s.ms[m] EXCEPT !.nl = s.ms[m].lc] ELSE s.ms[m]]]
+  IN [s |-> [s0 EXCEPT !.mlt = IF due THEN s.a ELSE @, !.reload = IF fire THEN FALSE ELSE @, !.scanst = IF fire THEN 2 ELSE @,
+                      !.upd = @ \cup add, !.sink = s.a], outs |-> outs]
+
+(* one iteration of MqttHandler::run, starting inside the fake client's run() *)
+SIterate(w, s) ==
+  LET o == w.o
+      was == s.conn
+      c0 == s.cl
+      down == c0.up = 0 \/ c0.lost = 1
+      (* --- the fake client --- *)
+      r1 == IF down /\ s.conn = 1 THEN [s |-> [s EXCEPT !.conn = 0, !.cl = [@ EXCEPT !.lost = 0, !.ack = 0, !.subs = <<>>], !.q = <<>>], outs |-> <<ORun(1, 0, 0)>>]
+            ELSE IF down /\ c0.up = 0 THEN [s |-> [s EXCEPT !.cl = [@ EXCEPT !.lost = 0, !.ack = 0, !.subs = <<>>], !.q = <<>>], outs |-> <<ORun(0, 0, 0)>>]
+            ELSE LET cl1 == IF down THEN [c0 EXCEPT !.lost = 0, !.ack = 0, !.subs = <<>>] ELSE c0
+                 IN IF s.conn = 0 THEN
+                      LET c1 == IF s.allowRe THEN 1 ELSE 0
+                      IN [s |-> [s EXCEPT !.conn = c1, !.cl = [cl1 EXCEPT !.ack = IF c1 = 1 THEN 1 ELSE @], !.q = <<>>], outs |-> <<ORun(0, c1, 0)>>]
+                    ELSE
+                      LET ackOuts == IF cl1.ack = 1
+                                       THEN (IF SGlobalHasName(o) THEN <<IF "version-flags" \in FIX THEN SPub(o, SGlobal(o, T_version), SQ(o, T_versionText), TRUE) ELSE OPub(SGlobal(o, T_version), SQ(o, T_versionText), 0, 1, 0)>> ELSE <<>>)
+                                            \o <<SPub(o, SGlobal(o, T_running), T_true, TRUE)>>
+                                            \o (IF Static(o) THEN <<>> ELSE <<OSub(Prefix(o) \o <<35>>)>> \o (IF o.int > 0 THEN <<OSub(Prefixn(o) \o T_cfgS \o T_restart)>> ELSE <<>>))
+                                     ELSE <<>>
+                          subs1 == IF cl1.ack = 1 /\ ~Static(o) THEN cl1.subs \o <<Prefix(o) \o <<35>>>> \o (IF o.int > 0 THEN <<Prefixn(o) \o T_cfgS \o T_restart>> ELSE <<>>) ELSE cl1.subs
+                          s1 == [s EXCEPT !.cl = [cl1 EXCEPT !.ack = 0, !.subs = subs1], !.q = <<>>]
+                          dl == SDeliver(w, s1, s.q, 1, <<>>)
+                      IN [s |-> dl.s, outs |-> <<ORun(1, 1, cl1.ack)>> \o ackOuts \o dl.outs]
+      s2 == r1.s
+      reconnected == was = 0 /\ s2.conn = 1
+      due == s2.a > s2.ltr + 15
+      up == IF due /\ s2.conn = 1 /\ SGlobalHasName(o) THEN <<SPub(o, SGlobal(o, T_uptime), Dec(s2.a - BASE), FALSE)>> ELSE <<>>
+      (* --- definitions (integration file) --- *)
+      doDefs == due /\ s2.conn = 1 /\ o.int > 0
+      gItems == <<T_running>> \o (IF SGlobalHasName(o) THEN <<T_version, T_signal, T_uptime, T_updatecheck, T_scan>> ELSE <<>>)
+      gdefs == IF doDefs /\ s2.defs = 0
+                 THEN [i \in DOMAIN gItems |-> SPub(o, Prefixn(o) \o T_cfgS \o T_globalS \o (IF "global-def-field" \in FIX THEN gItems[i] ELSE <<>>),
+                                                    SGlobal(o, gItems[i]) \o <<124>> \o (IF "global-def-field" \in FIX THEN gItems[i] ELSE <<>>), FALSE)] ELSE <<>>
+      since == IF doDefs /\ s2.defs = 0 THEN 1 ELSE s2.defs
+      fseen == FilterSeen(o)
+      inclW == o.int = 1
+      passes(m) == LET md == w.msgs[m]
+                       mr == s2.ms[m]
+                       asPassive == ~inclW /\ md.k = "w"
+                   IN IF fseen > 0 THEN /\ ~(mr.lu = 0 /\ (md.k = "u" \/ asPassive \/ md.k = "r"))
+                                        /\ ~(mr.dh = 1 /\ since > 1 /\ mr.ct <= since)
+                      ELSE ~(mr.ct <= since)
+      defMsgs == IF doDefs THEN {m \in Msgs(w) : passes(m)} ELSE {}
+      RECURSIVE defPubs(_)
+      defPubs(ms) == IF ms = {} THEN <<>>
+                     ELSE LET m == CHOOSE y \in ms : \A z \in ms : y <= z
+                              md == w.msgs[m]
+                              dirn == IF ~inclW /\ md.k = "w" THEN <<117, 119>> ELSE DirectionOf(md)
+                          IN [f \in DOMAIN md.fl |-> SPub(o, DefTopic(w, m, f), Join(<<PubTopic(w, m, f), md.c, md.n, md.fl[f].n, TypeOf(md.fl[f]), dirn>>, <<124>>), TRUE)]
+                             \o defPubs(ms \ {m})
+      defOuts == defPubs(defMsgs)
+      defUpd == IF fseen > 0 THEN {m \in defMsgs : s2.ms[m].lu > s2.ms[m].ct} ELSE {}
+      sendSignal == reconnected \/ (due /\ s2.conn = 1)
+      sigPub == IF ~sendSignal THEN <<>>
+                ELSE IF s2.hs = 1 THEN (IF (~s2.sig \/ reconnected) /\ SGlobalHasName(o) THEN <<SPub(o, SGlobal(o, T_signal), T_true, TRUE)>> ELSE <<>>)
+                ELSE (IF (s2.sig \/ reconnected) /\ SGlobalHasName(o) THEN <<SPub(o, SGlobal(o, T_signal), T_false, TRUE)>> ELSE <<>>)
+      sig1 == IF sendSignal THEN s2.hs = 1 ELSE s2.sig
+      RECURSIVE flush(_)
+      flush(ms) == IF ms = {} THEN <<>> ELSE LET m == CHOOSE x \in ms : \A y \in ms : x <= y
+                                             IN (IF s2.ms[m].lc > 0 /\ ~("publish-once" \in FIX /\ s2.ms[m].dp = s2.ms[m].uc) THEN SPublishMessage(w, s2, m, FALSE) ELSE <<>>) \o flush(ms \ {m})
+      upd2 == s2.upd \cup defUpd
+      fl == IF s2.conn = 1 THEN flush(upd2) ELSE <<>>
+      ms0 == [m \in Msgs(w) |-> IF m \in defMsgs /\ fseen > 0 THEN [s2.ms[m] EXCEPT !.dh = 1] ELSE s2.ms[m]]
+      ms1 == IF s2.conn = 1 THEN [m \in Msgs(w) |-> IF m \in upd2 /\ ms0[m].lc > 0 THEN [ms0[m] EXCEPT !.dp = ms0[m].uc] ELSE ms0[m]] ELSE ms0
+  IN [s |-> [s2 EXCEPT !.allowRe = due, !.ltr = IF due THEN s2.a ELSE @, !.sig = sig1, !.upd = {}, !.ms = ms1,
+                       !.defs = IF doDefs THEN s2.a + 1 ELSE @],
+      outs |-> r1.outs \o up \o gdefs \o defOuts \o sigPub \o fl]
+
+SEvent(w, s, ev) ==
+  IF ev.e = "T" THEN [s |-> [s EXCEPT !.a = @ + ev.n], outs |-> <<>>]
+  ELSE IF ev.e = "U" THEN [s |-> [SInvalidate(w, s, ev.m) EXCEPT !.ms[ev.m] = StoreSlave(@, s.a, ev.v), !.hs = 1], outs |-> <<>>]
+  ELSE IF ev.e = "F" THEN SMainLoop(w, s)
+  ELSE IF ev.e = "R" THEN LET r1 == SMainLoop(w, s)
+                              rb == SReadFromBus(w, r1.s, ev.m, <<>>)
+                          IN [s |-> rb.s, outs |-> r1.outs \o rb.outs]
+  ELSE IF ev.e = "I" THEN [s |-> [s EXCEPT !.q = Append(@, [t |-> InTopic(w, ev), p |-> ev.pl])], outs |-> <<>>]
+  ELSE IF ev.e = "D" THEN [s |-> [s EXCEPT !.cl = [@ EXCEPT !.up = 0, !.lost = 1]], outs |-> <<>>]
+  ELSE IF ev.e = "B" THEN [s |-> [s EXCEPT !.cl = [@ EXCEPT !.up = 1]], outs |-> <<>>]
+  ELSE IF ev.e = "M" THEN SIterate(w, s)
+  ELSE [s |-> s, outs |-> <<>>]
+
+(* comparison with a record of the real code: the outputs of an event as a bag, payloads modulo white space, the version text open *)
+SNorm(w, x) == [k |-> x.k, t |-> x.t, p |-> IF x.k = "pub" /\ SGlobalHasName(w.o) /\ x.t = SGlobal(w.o, T_version) THEN <<>> ELSE IF x.k = "pub" THEN Strip(x.p) ELSE x.p,
+                r |-> x.r, q |-> x.q, e |-> x.e]
+BagEq(xs, ys) == /\ Len(xs) = Len(ys)
+                 /\ \A i \in DOMAIN xs : Cardinality({j \in DOMAIN xs : xs[j] = xs[i]}) = Cardinality({j \in DOMAIN ys : ys[j] = xs[i]})
+SAgrees(w, s, outs, o) ==
+  /\ BagEq([i \in DOMAIN outs |-> SNorm(w, outs[i])], [i \in DOMAIN o.outs |-> SNorm(w, o.outs[i])])
+  /\ \A m \in Msgs(w) : o.pr[m] = s.ms[m].pr
+  /\ o.sg = s.hs
+RECURSIVE SFold(_, _, _, _, _)
+SFold(w, s, evs, obs, k) ==
+  IF k > Len(evs) THEN 0
+  ELSE LET r == SEvent(w, s, evs[k]) IN IF SAgrees(w, r.s, r.outs, obs[k + 1]) THEN SFold(w, r.s, evs, obs, k + 1) ELSE k
+(* 0 = the model reproduces the record; k = first event at which it differs (Len + 1: the start) *)
+SRun(w, evs, obs) == IF ~SAgrees(w, SInit(w), SStartOuts(w), obs[1]) THEN Len(evs) + 1 ELSE SFold(w, SInit(w), evs, obs, 1)
 =============================================================================
